@@ -181,6 +181,27 @@ func (e *Engine) Prepare(pkgs []*ssa.Package) error {
 			return fmt.Errorf("init of %s: %s %s at %s\n%s", p.Pkg.Path(), out.Kind, out.Label, out.Site, strings.Join(out.Stack, "\n"))
 		}
 	}
+	// globals of packages whose init is not run but whose value the code under test needs
+	if ap := e.prog.ImportedPackage("github.com/bytedance/sonic/ast"); ap != nil {
+		if g, ok := ap.Members["VisitOPSkip"].(*ssa.Global); ok {
+			// var VisitOPSkip = errors.New("")
+			if ep := e.prog.ImportedPackage("errors"); ep != nil {
+				var got Value
+				st.frames = nil
+				st.pushFrameClosure(Func{Fn: ep.Func("New")}, []Value{st.strConst("")}, func(s *State, v Value) { got = v })
+				saved := e.StepBudget
+				e.StepBudget = 1 << 40
+				out := e.runPath(st, true)
+				e.StepBudget = saved
+				if got == nil {
+					return fmt.Errorf("initialising ast.VisitOPSkip: %s %s", out.Kind, out.Label)
+				}
+				id := e.globalObj(st, g)
+				st.wobj(id).Poison = ""
+				st.store(Ptr{id, e.k64(0)}, g.Type().(*types.Pointer).Elem(), got)
+			}
+		}
+	}
 	// freeze: everything allocated so far becomes the shared base
 	e.baseObjs = st.objs
 	for _, o := range e.baseObjs {
